@@ -579,6 +579,44 @@ func runLayout(cfg *PropConfig, w *World) *FuncReport {
 	anchor("connectivity-domain", `if\s*\(l4proto\s*==\s*IPPROTO_UDP\)\s*\{\s*if\s*\(dport\s*==\s*bpf_htons\(53\)\)\s*domain_idx\s*=\s*1;\s*else\s*domain_idx\s*=\s*2;`, "tproxy.c: domain_idx is 0 for TCP, 1 for UDP port 53, 2 for other UDP")
 	anchor("connectivity-ipidx", `ip_idx\s*=\s*skb->protocol\s*==\s*bpf_htons\(ETH_P_IP\)\s*\?\s*0\s*:\s*1\s*;`, "tproxy.c: ip_idx is 0 for IPv4, 1 otherwise")
 
+	// how route() reads the 16-byte value of a match_set: the positions the Go encoders (contract macro `agree`
+	// in control/zz_verif_contracts.go) write to. Offsets and widths come from the record layout of the C union.
+	views := []struct {
+		member string
+		off    int64
+		width  int64
+	}{{"Index", 0, 4}, {"PortRange.PortStart", 0, 2}, {"PortRange.PortEnd", 2, 2}, {"L4protoType", 0, 4}, {"IpVersion", 0, 4}, {"Pname", 0, 16}, {"Dscp", 0, 1}, {"Value", 0, 16}}
+	if r := recs["struct match_set"]; r != nil {
+		cl, _ := cLeaves(r, enumSize)
+		for _, v := range views {
+			found := false
+			for _, l := range cl {
+				if l.path == v.member {
+					found = true
+					add("view:match_set."+v.member, fmt.Sprintf("C union member match_set.%s sits at offset %d, width %d (the bytes the Go encoder writes)", v.member, v.off, v.width),
+						l.off == v.off && l.size == v.width, fmt.Sprintf("C offset %d width %d", l.off, l.size))
+				}
+			}
+			if !found {
+				add("view:match_set."+v.member, "C union member match_set."+v.member+" exists", false, "member not found in struct match_set")
+			}
+		}
+	} else {
+		return fail("no layout for struct match_set")
+	}
+	anchor("route-port", `check_port\s*>=\s*match_set->port_range\.port_start\s*&&\s*check_port\s*<=\s*match_set->port_range\.port_end`, "route(): a port matches iff port_start <= port <= port_end (host order, both ends inclusive)")
+	anchor("route-port-host-order", `ctx->h_dport\s*=\s*bpf_ntohs\(\(\(struct tcphdr \*\)l4hdr\)->dest\)`, "route(): ports are compared in host byte order")
+	anchor("route-lpm-index", `bpf_map_lookup_elem\(&lpm_array_map,\s*&match_set->index\)`, "route(): the trie of an address rule is lpm_array_map[match_set->index]")
+	anchor("route-mask", `__u8 mask\s*=\s*match_type\s*==\s*MatchType_L4Proto\s*\?\s*match_set->l4proto_type\s*:\s*match_set->ip_version;`, "route(): protocol/version rules read a one-byte mask from the value")
+	anchor("route-mask-test", `if\s*\(value & mask\)`, "route(): protocol/version rules hit iff value & mask != 0")
+	anchor("route-pname", `if\s*\(is_wan\s*&&\s*equal16\(match_set->pname,\s*pname\)\)`, "route(): process-name rules compare all 16 bytes, WAN only")
+	anchor("route-dscp", `if\s*\(dscp\s*==\s*match_set->dscp\)`, "route(): DSCP rules compare the first value byte")
+	anchor("route-domain-bit", `\(ctx->domain_word_bits\s*>>\s*\(index % 32\)\)\s*&\s*1`, "route(): domain rule i hits iff bit i%32 of bitmap word i/32 is set")
+	anchor("route-result", `ctx->result\s*=\s*\(__s64\)match_outbound\s*\|\s*\(\(__s64\)match_set->mark\s*<<\s*8\)\s*\|\s*\(\(__s64\)must\s*<<\s*40\);`, "route(): result = outbound | mark<<8 | must<<40")
+	anchor("route-must", `bool must\s*=\s*!!\(ctx->route_state & ROUTE_STATE_MUST\)\s*\|\|\s*match_set->must;`, "route(): must = earlier must_rules hit || rule's must")
+	anchor("route-not", `if\s*\(!!\(ctx->route_state & ROUTE_STATE_GOOD_SUBRULE\)\s*==\s*match_not\)`, "route(): a sub-rule fails iff hit == not")
+	anchor("route-lpm-prefixlen", `ctx->lpm_key_daddr\.prefixlen\s*=\s*IPV6_BYTE_LENGTH \* 8;`, "route(): addresses are looked up as /128 keys")
+
 	rep.Notes = append(rep.Notes, fmt.Sprintf("%d mirrored records, %d shared constants compared; C side: %d declarations extracted from tproxy.c + ebpf_sync_defs.h", len(pairs), len(cps)+1, len(needed)))
 	rep.Assumptions = append(rep.Assumptions,
 		"layout engine: kernel headers are absent; __u8/__u16/__u32/__u64/__be*/bool are supplied by a fixed typedef prelude (assumed equal to the kernel's definitions)",
